@@ -167,7 +167,7 @@ def build(model, ranks=None, plain=False, default_resource_ids=False, share_id_o
             teams[i_].extend_targeted_task_list([tasks[k] for k in mj.get("targets", []) if k not in (mj.get("ctor_targets") or [])])
         else:
             wps[i_].extend_targeted_task_list([tasks[k] for k in model["wps"][i_].get("targets", [])])
-    if share_id_objects:
+    if share_id_objects or model.get("share_id_objects"):
         # main_workplace_id is the very same str object as the workplace's ID (as in `main_workplace_id=wp.ID`)
         byid = {wp_.ID: wp_.ID for wp_ in wps}
         for tm_ in teams:
